@@ -10,6 +10,7 @@ CONSTANTS
   Limits = {1, 2}
   Nows <- NowsYQ
   WithApi = TRUE
+  WithReader = FALSE
   Pinned = TRUE
   PinnedApi = TRUE
 INVARIANT TypeOK
